@@ -257,6 +257,7 @@ class Extractor:
     def walk(self, lo, hi, top=False, ctx=None):
         toks = self.toks
         i = lo
+        depth = 0
         while i < hi:
             t = toks[i]
             # ---- attributes
@@ -264,13 +265,18 @@ class Extractor:
                 i = self.handle_attrs(i, hi, ctx)
                 continue
             # ---- item-level handling (only at positions where an item can start)
-            if i != self._no_item_at and t.k == 'id' and (t.t in ITEM_KW or t.t in ('pub', 'unsafe', 'const', 'static', 'type', 'macro_rules') or
+            if depth == 0 and i != self._no_item_at and t.k == 'id' and (t.t in ITEM_KW or t.t in ('pub', 'unsafe', 'const', 'static', 'type', 'macro_rules') or
                                 (i + 1 < hi and toks[i + 1].t == '!')) and self._at_item_start(i, lo):
                 nm = self.item_name(i, hi)
                 if nm is not None:
                     full = (ctx + '::' + nm) if ctx else nm
                     if self.will_drop(nm, ctx):
                         self.fired['X1'] += 1
+                        i = self.thing_end(i, hi)
+                        continue
+                    if nm.startswith('mod ') and toks[self.thing_end(i, hi) - 1].t == ';':
+                        # out-of-line module declaration: the generator re-creates the module tree
+                        self.fired['X0-modtree'] += 1
                         i = self.thing_end(i, hi)
                         continue
                     start = i
@@ -339,6 +345,10 @@ class Extractor:
                     break
             if done:
                 continue
+            if t.t in OPEN:
+                depth += 1
+            elif t.t in CLOSE:
+                depth -= 1
             self.emit_tok(i)
             i += 1
 
